@@ -11,7 +11,7 @@ NEED_REPARSE = False
 
 
 def cases(O):
-    return E.default_cases(O, "C07", n_quick=900, n_thorough=5000)
+    return E.default_cases(O, "C07", n_quick=900, n_thorough=15000)
 
 
 def judge(ctx):
